@@ -808,6 +808,10 @@ def generic_cmp(e, x, y, crate):
         if x.variant != y.variant: return 'Less' if x.variant == 'None' else 'Greater'
         if x.variant == 'None': return 'Equal'
         return generic_cmp(e, x.slots[0], y.slots[0], crate)
+    if isinstance(x, Opaque) and x.kind == 'Version':
+        from .models_ext import version_cmp
+        return {-1: 'Less', 0: 'Equal', 1: 'Greater'}[version_cmp(e, x, y)]
+    if isinstance(x, EnumV) and x.ty == 'Cow': return generic_cmp(e, x.slots[0], y.slots[0] if isinstance(y, EnumV) and y.ty == 'Cow' else y, crate)
     if isinstance(x, (Agg, EnumV)):
         r = e.call_path(crate, '<%s as Ord>::cmp' % x.ty, [Ref([x], [0]), Ref([y], [0])])
         return ord_of(e, r)
